@@ -131,10 +131,10 @@ func vwRun(in *bufio.Scanner, w *bufio.Writer) {
 			// directory content is stable
 			var last string
 			stable := 0
-			for i := 0; i < 400 && stable < 3; i++ {
+			for i := 0; i < 1000 && stable < 3; i++ {
 				time.Sleep(5 * time.Millisecond)
 				cur := vwSnapshot(dir)
-				if cur == last {
+				if cur == last && cur != "" && !strings.Contains(cur, ":0;") {
 					stable++
 				} else {
 					stable = 0
